@@ -9,14 +9,14 @@ CHECKS = {'C09': {'category': 'translation_validation',
                  'added on top when finished.',
          'note': 'SC interleavings only; memory orders not modelled; explored schedules only for the history tie; Lean kernel + propext/Classical.choice/Quot.sound.'},
  'C22': {'category': 'proof',
-         'technique': 'Lean 4: inductive invariants over atomic-step machines of spin_lock, reentrant_spin_lock and pool_monitor (all schedules, threads, locks/nodes, pool capacities) + atomic-trace '
-                      'conformance of the real spin and reentrant locks + history tie and occupancy/pool oracles for all five lock kinds',
+         'technique': 'Lean 4: inductive invariants over atomic-step machines of spin_lock, reentrant_spin_lock, pool_monitor, injecting_monitor (= per-node spin lock) and lock_array (all schedules, '
+                      'threads, locks / nodes / cells, pool capacities) + atomic-trace conformance of all five lock kinds + history tie and occupancy / pool oracles',
          'text': 'C22 (spin): mutual exclusion. C22Monitors: C22_reentrant_mutex, C22_reentrant_lock_word, C22_reentrant_release_by_last_unlock, C22_reentrant_other_threads_excluded; '
-                 'C22_pool_monitor_mutex, C22_pool_lock_unique, C22_pool_lock_returned_only_when_unused, C22_pool_refcount_counts_users, C22_pool_spinbit_mutex. Spin and reentrant machines are tied '
-                 "by replaying instrumented traces step by step; the pool monitor machine is a hand model tied through the client's oracles and histories (its trace tie is not wired: the lock pool's "
-                 'own operations are not model events). injecting_monitor and lock_array: histories judged against the Lean lock specification plus occupancy oracles.',
-         'note': 'SC interleavings; memory orders not modelled; discipline (only a holder unlocks) assumed by the theorems and obeyed by the harness; Lean kernel + '
-                 'propext/Classical.choice/Quot.sound.'},
+                 'C22_pool_monitor_mutex, C22_pool_lock_unique, C22_pool_lock_returned_only_when_unused, C22_pool_refcount_counts_users, C22_pool_spinbit_mutex. C22PoolReplay: the same for the '
+                 "replay machine that takes the pool's choice of lock object from the trace (a generalisation of the FIFO machine). C22LockArray: C22_lock_array_mutex, C22_lock_all_holds_every_cell, "
+                 'C22_lock_all_excludes_others, C22_injecting_monitor_mutex. Every machine is tied to the real code by replaying instrumented traces step by step.',
+         'note': 'SC interleavings; memory orders not modelled; discipline (only a holder unlocks) assumed by the theorems and obeyed by the harness; explored schedules only for the ties; Lean '
+                 'kernel + propext/Classical.choice/Quot.sound.'},
  'C25': {'category': 'proof',
          'technique': 'Lean 4 theorems over BitVec about definitions regenerated from the C++ headers on every run (clang AST translator), cross-checked by differential evaluation against the '
                       'compiled code and a reference semantics',
